@@ -319,3 +319,17 @@ CLAIMED['C04'] = dict(
          "inconclusive (data-dependent loops). Trusted: z3, clang-14 (stands for the C compiler), vf/llsym.py, vf/refsem.py.",
     technique="symbolic execution of the compiler's LLVM IR for the generated C + runtime, SMT equivalence with refsem per path",
     design_ref="DESIGN.md §1.4, §3 C04")
+
+CLAIMED['C24'] = dict(
+    level='other', engine='llsym (heap model)',
+    text="Bounded model checking of the current vm_mngr.c through its LLVM IR (clang-14, interpreted by vf/llsym.py with a heap and "
+         "pointer cells): 2 pages (thorough: up to 3) of 0-4 bytes at symbolic 64-bit addresses with symbolic permissions and "
+         "contents, an optional symbolic breakpoint, then 1-3 operations with symbolic addresses and values (typed reads/writes of "
+         "8-64 bits, host reads/writes, is_mapped, check_memory_breakpoint, reset_memory_access) in both byte orders; on every "
+         "path z3 proves the observations equal to an SMT byte map with permissions (overlap refusal, fault iff a touched byte is "
+         "unmapped/forbidden and then memory unchanged, reads = last written bytes, breakpoint iff overlap, recorded ranges = "
+         "bytes accessed). Violations are replayed natively (ASan+UBSan build of the same source).",
+    note="Outside: vm_mngr_py.c glue, remove_memory_page, code-block bookkeeping, allocation failure, ranges wrapping 2^64. "
+         "Trusted: z3, clang-14, vf/llsym.py.",
+    technique="bounded model checking: symbolic execution of the C source's LLVM IR with symbolic addresses/values, SMT oracle per path",
+    design_ref="DESIGN.md §9.5")
